@@ -421,7 +421,7 @@ def norm_inter(items):
     return sorted(out, key=repr)
 
 
-def check(nres, numbering, connectivity, link_idxs, acc, sample=False):
+def check(nres, numbering, connectivity, link_idxs, acc, sample=False, world=None):
     from vermouth.forcefield import ForceField
     from vermouth.ffinput import read_ff
     from vermouth.processors.do_links import DoLinks
@@ -431,11 +431,17 @@ def check(nres, numbering, connectivity, link_idxs, acc, sample=False):
     text = []
     for link in links:
         text.extend(render(link))
-    ff = ForceField(name='c05ff')
-    try:
-        read_ff(text, ff)
-    except Exception as err:   # pylint: disable=broad-except
-        raise common.HarnessError('generated link does not parse: %r\n%s' % (err, '\n'.join(text)))
+    if world is not None and 'ff' in world:
+        ff = world['ff']            # ONE force field object (and one DoLinks instance) over several molecules
+    else:
+        ff = ForceField(name='c05ff')
+        try:
+            read_ff(text, ff)
+        except Exception as err:   # pylint: disable=broad-except
+            raise common.HarnessError('generated link does not parse: %r\n%s' % (err, '\n'.join(text)))
+        if world is not None:
+            world['ff'] = ff
+            world['processor'] = DoLinks()
     if len(ff.links) != len(links):
         raise common.HarnessError('parsed %d links from %d specifications' % (len(ff.links), len(links)))
     mol = build_molecule(nres, numbering, connectivity, ff)
@@ -444,7 +450,7 @@ def check(nres, numbering, connectivity, link_idxs, acc, sample=False):
     expected = apply_links(expected, links)
     try:
         with common.LogCapture():
-            DoLinks().run_molecule(mol)
+            (world['processor'] if world is not None else DoLinks()).run_molecule(mol)
     except Exception as err:   # pylint: disable=broad-except
         acc.case(outcome='exc')
         acc.violation('c05:exception', 'DoLinks raised %r for links %r' % (err, case['labels']), dict(case, ff_text=text))
@@ -486,9 +492,27 @@ MOLECULES = [(3, num, con) for num in ('consecutive', 'gap', 'descending', 'dupl
             [(4, num, con) for num in ('consecutive', 'gap', 'descending', 'duplicated') for con in ('linear', 'star', 'ring', 'crosslink')]
 
 
+def sequence_case(item, acc):
+    """The links of one force-field object applied, by one DoLinks instance, to several molecules one after another (what
+    run_system does); every molecule is judged on its own."""
+    link_idxs, mols = item
+    world = {}
+    before = len(acc.violations)
+    for nres, numbering, connectivity in mols:
+        check(nres, numbering, connectivity, link_idxs, acc, world=world)
+    for idx in range(before, len(acc.violations)):
+        sig, desc, case = acc.violations[idx]
+        acc.violations[idx] = (sig + '(molecule-sequence)', 'one force field / one DoLinks over the molecules %r: %s' % (list(mols), desc),
+                               {'layer': 'sequence', 'links': list(link_idxs), 'molecules': [list(m) for m in mols]})
+
+
 def work(task):
     common.bind_repo()
     acc = Acc()
+    if isinstance(task, tuple) and task and task[0] == 'sequence':
+        for item in task[1]:
+            sequence_case(item, acc)
+        return acc
     if task == 'order-table':
         check_order_table(acc)
         return acc
@@ -516,12 +540,26 @@ def run(ctx):
     for part in common.pmap(work, list(common.chunked(items, max(1, len(items) // 128)))):
         acc += part
     ctx.layer('links', acc)
+    pool = [m for m in MOLECULES if m[0] == 3][:4] + [m for m in MOLECULES if m[0] != 3][:2]
+    seqs = []
+    for i in range(len(GRAMMAR)):
+        for a, b in itertools.permutations(pool, 2):
+            seqs.append(((i,), (a, b)))
+    if not ctx.quick:
+        for i, j in itertools.product(range(len(GRAMMAR)), repeat=2):
+            seqs.append(((i, j), (pool[0], pool[-1], pool[1])))
+    acc = Acc()
+    for part in common.pmap(work, [('sequence', chunk) for chunk in common.chunked(seqs, max(1, len(seqs) // 64))]):
+        acc += part
+    ctx.layer('molecule-sequences', acc)
 
 
 def replay(case):
     common.bind_repo()
     acc = Acc()
-    if case.get('layer') == 'order-table':
+    if case.get('layer') == 'sequence':
+        sequence_case((tuple(case['links']), [tuple(m) for m in case['molecules']]), acc)
+    elif case.get('layer') == 'order-table':
         check_order_table(acc)
     else:
         check(case['nres'], case['numbering'], case['connectivity'], tuple(case['links']), acc)
